@@ -269,7 +269,7 @@ def coq_redir(r):
 def coq_config(c):
     b = lambda x: "true" if x else "false"
     return ("{| c_stdin := %s; c_stdout := %s; c_stderr := %s; c_cwd := %s; c_setuid := %s; c_setgid := %s; c_setpgid := %s; "
-            "c_prep_fails := %s; c_ncand := %d; c_detached := %s |}") % (
+            "c_prep_fails := %s; c_ncand := %d; c_detached := %s; c_inflight := false |}") % (
         coq_redir(c["stdin"]), coq_redir(c["stdout"]), coq_redir(c["stderr"]), b(c.get("cwd")), b(c.get("setuid")),
         b(c.get("setgid")), b(c.get("setpgid")), b(c.get("prep_fails")), c.get("ncand", 1), b(c.get("detached")))
 
